@@ -21,6 +21,17 @@ USYY = (r'^(?P<month>\d{2})/(?P<day>\d{2})/(?P<yy>\d{2}) '
         r'(?P<hours>\d{2}):(?P<minutes>\d{2}):(?P<seconds>\d{2})')
 
 
+LOOSE = (r'^(?P<year>\d{4})-(?P<month>\d{2})-(?P<day>\d{2})\s+'
+         r'(?P<hours>\d{2}):(?P<minutes>\d{2}):(?P<seconds>\d+)')
+
+
+class LooseMatcher(TimestampMatcherBase):
+    """ unbounded numeric field, as in the repository's own test matchers """
+    @property
+    def patterns(self):
+        return [LOOSE]
+
+
 class StdMatcher(TimestampMatcherBase):
     """ one pattern, every field read straight from the match """
     @property
@@ -46,8 +57,9 @@ class DerivedMatcher(TimestampMatcherBase):
         return '20' + self.result.group('yy')
 
 
-MATCHERS = {'std': StdMatcher, 'multi': MultiMatcher, 'derived': DerivedMatcher}
-_PATTERNS = {'std': [STD], 'multi': [BRK, STD], 'derived': [USYY]}
+MATCHERS = {'std': StdMatcher, 'multi': MultiMatcher, 'derived': DerivedMatcher,
+            'loose': LooseMatcher}
+_PATTERNS = {'std': [STD], 'multi': [BRK, STD], 'derived': [USYY], 'loose': [LOOSE]}
 DATE_FORMAT = '%Y-%m-%d %H:%M:%S'
 
 
@@ -76,7 +88,7 @@ def oracle_ts_full(kind, text):
                 return datetime(year, int(g['month']), int(g['day']),
                                 int(g['hours']), int(g['minutes']),
                                 int(g['seconds'])), mlen
-            except ValueError:
+            except (ValueError, OverflowError):
                 return None, 0
     return None, 0
 
